@@ -12,6 +12,7 @@ import (
 	"fmt"
 	"sort"
 	"strings"
+	"sync"
 
 	appsv1 "k8s.io/api/apps/v1"
 	autoscalingv2 "k8s.io/api/autoscaling/v2"
@@ -30,7 +31,19 @@ import (
 	kafscalev1alpha1 "github.com/KafScale/platform/api/v1alpha1"
 )
 
+var (
+	c42SchemeOnce sync.Once
+	c42SchemeVal  *runtime.Scheme
+	c42SchemeErr  error
+)
+
+// c42Scheme returns one shared scheme (building it registers several hundred types).
 func c42Scheme() (*runtime.Scheme, error) {
+	c42SchemeOnce.Do(func() { c42SchemeVal, c42SchemeErr = c42BuildScheme() })
+	return c42SchemeVal, c42SchemeErr
+}
+
+func c42BuildScheme() (*runtime.Scheme, error) {
 	scheme := runtime.NewScheme()
 	for _, add := range []func(*runtime.Scheme) error{kafscalev1alpha1.AddToScheme, appsv1.AddToScheme, corev1.AddToScheme,
 		policyv1.AddToScheme, batchv1.AddToScheme, autoscalingv2.AddToScheme} {
